@@ -61,6 +61,21 @@ CLAIMED['C03'] = dict(
         'Correspondence: real extract_waveforms / export_waveforms + np.load / get_spike_waveforms / TemplateModel.get_waveforms over lengths, channels, int16/float32/float64, array/flat multi-file/cbin, every chunk size, signed and unsigned spike dtypes, boundaries, -1 channels as arrays and lists, unit factors.',
    note='.npy byte layout / np.load are transport; factor multiplication exact on generated values; sample subtraction modelled after conversion to int (as the fixed code does).',
    tech='Lean 4 theorems (index-wise window equality, chain invariant over chunk intervals, flatten/chunk lemmas) + differential correspondence against /repo', ref='§5 C03')
+CLAIMED['C06'] = dict(
+   text='Theorems (cells of any type = any trailing dimensions): from_sparse returns at (i, j) the stored value whose column index names requested channel j, zero otherwise, for any column table with distinct real entries and repeated -1 and any distinct requested channels incl. unknown ones, independently of request order; get_features / get_template_features return, at the position of every STORED requested spike (any request order, with or without row table / column table), the densification of its stored row with its template\'s column row. '
+        'Correspondence: exhaustive small from_sparse space (trailing dims, int32/int64/uint32 tables), real TemplateModel datasets with/without row and column tables, unsorted requests incl. unstored spikes. PCA route (no feature file): bookkeeping + numerical residual TEST only (partial).',
+   note='PCA route is partial: np.cov/eigh are outside the model; eigen-equation residual and ordering are tested numerically (a test, not a proof).',
+   tech='Lean 4 theorems (scatter-fold invariant, lookup-table lemmas) + differential correspondence against /repo', ref='§5 C06')
+CLAIMED['C11'] = dict(
+   text='Theorems for any number of probes/spikes: merged origins are a permutation of all input spikes; merged times non-decreasing; stable: merged origins sorted lexicographically by (time, probe, index); every per-spike array gathered by the same order keeps each spike\'s value; cluster ids shifted by running offsets max+1 and template ids by offsets counting each probe\'s templates, ranges of different probes never collide; cluster_probes points back to the probe; renumbered metadata found under id + offset. '
+        'Correspondence: real Merger.merge() on 1..4 generated probes (ties inside/across probes, gapped ids, curated clusters, dtypes, TSVs in all/some/none), unique amplitude tokens identify spikes; input directories hashed before/after.',
+   note='np.save/np.load/csv transport; same dtype across probes.',
+   tech='Lean 4 theorems (stable insertion sort: permutation, sortedness, stability; prefix-sum offsets) + differential correspondence against /repo', ref='§5 C11')
+CLAIMED['C12'] = dict(
+   text='Theorems for any number of probes with any channel/template counts: channel offsets = summed channel counts (permutation maps); merged channel map/probe labels are contiguous blocks in input order; positions translated along x only and (>= 2 distinct x per probe, non-negative coordinates) strictly apart; template t of probe k at row toff_k + t on columns of block k, zeros elsewhere; index tables shifted by per-probe offsets; block_diag entries; params. '
+        'Correspondence: the same real merges as C11 with distinct tokens per template cell, forced 3-probe cases of different sizes, int32/int64/uint32 tables, optional matrices in some probes. One OPEN known finding (single-x-column probes not kept apart).',
+   note='scipy block_diag modelled by a list definition; index tables must be present in every probe (Merger requires them).',
+   tech='Lean 4 theorems by induction over the probe list with running offsets + differential correspondence against /repo', ref='§5 C12')
 REASONS = {}
 
 checks = []
